@@ -313,6 +313,61 @@
 #define IT_PASSED_QP(it_, i_) ((bg_size)(i_) == (bg_size)G_Q ? (it_).p.nP : (bg_size)0)
 /* x counted once, or twice on the diagonal when self-loops count twice */
 #define U_TWICE(x, twice) ((G_P == G_Q && (twice)) ? (x) + (x) : (x))
+/* ================= binary edge lists (C14, C15) ================= */
+#define BSWAP32(v) ((((v) & 0xffu) << 24) | (((v) & 0xff00u) << 8) | (((v) >> 8) & 0xff00u) | (((v) >> 24) & 0xffu))
+/* the four bytes b[0..3] are the little-endian encoding of v */
+#define LE32_IS(b, v)                                                         \
+  ((b)[0] == (unsigned char)((v) & 0xffu) && (b)[1] == (unsigned char)(((v) >> 8) & 0xffu) && \
+   (b)[2] == (unsigned char)(((v) >> 16) & 0xffu) && (b)[3] == (unsigned char)(((v) >> 24) & 0xffu))
+#define LE32_VAL_(b, F)                                                       \
+  ((VertexIndex)F((b)[0]) | ((VertexIndex)F((b)[1]) << 8) | ((VertexIndex)F((b)[2]) << 16) | ((VertexIndex)F((b)[3]) << 24))
+#define FILE_SAME_(F)                                                         \
+  (bg_file.nPQ == F(bg_file.nPQ) && bg_file.nQP == F(bg_file.nQP) && bg_file.nOther == F(bg_file.nOther) && \
+   bg_file.tail == F(bg_file.tail) && bg_file.bytes == F(bg_file.bytes) && bg_file.openable == F(bg_file.openable))
+#define REC_IS_PQ(a, b) ((a) == G_P && (b) == G_Q)
+#define REC_IS_QP(a, b) (G_P != G_Q && (a) == G_Q && (b) == G_P)
+#ifdef BG_STREAM_BYTES
+/* byte level: value -> exactly four little-endian bytes, on either machine byte order */
+#define WR_PRE(fs) (!(fs)->base.fail)
+#define WR_POST(fs, v) ((fs)->lastn == 4 && LE32_IS((fs)->last, v) && bg_file.bytes == OLD(bg_file.bytes) + 4 && !(fs)->base.fail)
+#define RD_PRE(fs) 1
+#define RD_POST(fs, vp)                                                       \
+  ((!OLD((fs)->base.fail) && OLD((fs)->avail) >= 4)                            \
+       ? (!(fs)->base.fail && (fs)->avail == OLD((fs)->avail) - 4 && *(vp) == LE32_VAL_((fs)->next, OLD)) \
+       : ((fs)->base.fail && (OLD((fs)->base.fail) || (fs)->avail == 0)))
+#else
+/* record level (little-endian machine model): the effect on the classified record counters */
+#define WR_PRE(fs) (BG_FILE_WF(bg_file) && bg_file.bytes <= BG_REC_BYTES * BG_CAP)
+#define WR_POST(fs, v)                                                        \
+  (OLD((fs)->base.fail)                                                       \
+       ? ((fs)->base.fail && FILE_SAME_(OLD) && (fs)->inrec == OLD((fs)->inrec) && (fs)->first == OLD((fs)->first)) \
+       : (!(fs)->base.fail && bg_file.bytes == OLD(bg_file.bytes) + 4 && bg_file.openable == OLD(bg_file.openable) && \
+          bg_file.otherBound <= ((bg_size)1 << 32) && bg_file.otherBound >= OLD(bg_file.otherBound) && \
+          (OLD((fs)->inrec)                                                   \
+               ? (!(fs)->inrec && bg_file.tail == 0 &&                        \
+                  bg_file.nPQ == OLD(bg_file.nPQ) + (REC_IS_PQ(OLD((fs)->first), v) ? 1 : 0) && \
+                  bg_file.nQP == OLD(bg_file.nQP) + (REC_IS_QP(OLD((fs)->first), v) ? 1 : 0) && \
+                  bg_file.nOther == OLD(bg_file.nOther) + ((REC_IS_PQ(OLD((fs)->first), v) || REC_IS_QP(OLD((fs)->first), v)) ? 0 : 1)) \
+               : ((fs)->inrec && (fs)->first == (v) && bg_file.tail == 4 && bg_file.nPQ == OLD(bg_file.nPQ) && \
+                  bg_file.nQP == OLD(bg_file.nQP) && bg_file.nOther == OLD(bg_file.nOther)))))
+#define RD_PRE(fs) ((fs)->nPQ < BG_CAP && (fs)->nQP < BG_CAP && (fs)->nOther < BG_CAP && (fs)->tail < BG_REC_BYTES && (G_P != G_Q || (fs)->nQP == 0))
+#define RD_SAME_CNT(fs) ((fs)->nPQ == OLD((fs)->nPQ) && (fs)->nQP == OLD((fs)->nQP) && (fs)->nOther == OLD((fs)->nOther))
+#define RD_POST(fs, vp)                                                       \
+  ((fs)->otherBound == OLD((fs)->otherBound) && (fs)->base.open == OLD((fs)->base.open) && \
+   (OLD((fs)->base.fail)                                                      \
+        ? ((fs)->base.fail && RD_SAME_CNT(fs) && (fs)->tail == OLD((fs)->tail) && (fs)->inrec == OLD((fs)->inrec)) \
+    : OLD((fs)->inrec)                                                        \
+        ? (!(fs)->base.fail && !(fs)->inrec && *(vp) == OLD((fs)->second) && RD_SAME_CNT(fs) && (fs)->tail == OLD((fs)->tail)) \
+    : (OLD((fs)->nPQ) + OLD((fs)->nQP) + OLD((fs)->nOther) > 0)                 \
+        ? (!(fs)->base.fail && (fs)->inrec && (fs)->tail == OLD((fs)->tail) &&  \
+           ((REC_IS_PQ(*(vp), (fs)->second) && OLD((fs)->nPQ) > 0 && (fs)->nPQ + 1 == OLD((fs)->nPQ) && (fs)->nQP == OLD((fs)->nQP) && (fs)->nOther == OLD((fs)->nOther)) || \
+            (REC_IS_QP(*(vp), (fs)->second) && OLD((fs)->nQP) > 0 && (fs)->nQP + 1 == OLD((fs)->nQP) && (fs)->nPQ == OLD((fs)->nPQ) && (fs)->nOther == OLD((fs)->nOther)) || \
+            (!REC_IS_PQ(*(vp), (fs)->second) && !REC_IS_QP(*(vp), (fs)->second) && OLD((fs)->nOther) > 0 && (fs)->nOther + 1 == OLD((fs)->nOther) && \
+             (fs)->nPQ == OLD((fs)->nPQ) && (fs)->nQP == OLD((fs)->nQP) && (bg_size)*(vp) < (fs)->otherBound && (bg_size)(fs)->second < (fs)->otherBound))) \
+    : (OLD((fs)->tail) >= 4)                                                  \
+        ? (!(fs)->base.fail && !(fs)->inrec && (fs)->tail + 4 == OLD((fs)->tail) && RD_SAME_CNT(fs)) \
+        : ((fs)->base.fail && !(fs)->inrec && (fs)->tail == 0 && RD_SAME_CNT(fs))))
+#endif
 /* ---- unordered_set<VertexIndex> S and a walk over it */
 #define S_HAS_P(s) ((s).hasP)
 #define S_HAS_Q(s) (G_P == G_Q ? (s).hasP : (s).hasQ)
